@@ -200,6 +200,7 @@ func TestC06Random(t *testing.T) {
 			pre = append(pre, model.Op{K: "regnode", N: id, NT: typeOf[id], Shape: rapid.SampledFrom([]int{0, 0, 1, 2, 3, 5}).Draw(t, "preShape-"+id)})
 		}
 		ops := append(pre, rapid.SliceOfN(opGen, 1, maxOps).Draw(t, "ops")...)
+		ops = model.Maintain(t, ops, func(id string) int { return typeOf[id] }, "u")
 		msg, c := runSeq(ops, ets, nodeIDs, true)
 		if msg != "" {
 			t.Fatalf("VIOLATION C06: %s\nhistory: %s", msg, model.Describe(ops))
